@@ -9,11 +9,13 @@ neither the application nor the Session (`_strong_obj`, `_new`, `_deleted`) hold
 gone from the identity map.  `step` is the reference semantics in which nothing is
 ever collected.
 
-* `gc_unobservable`, `gc_same_db` — for EVERY history (induction over the operation
-  list through the simulation `Sim`): both semantics produce the same outputs (values
-  read, flush/commit/rollback results; only `len(identity_map)` may differ) and the
-  same database.  Hence every change is flushed no matter which references were
-  dropped and what was collected in between.
+* `gc_unobservable_partial`, `gc_same_db_partial` — for every history WITHOUT a rollback
+  (induction over the operation list through the simulation `Sim`): both semantics
+  produce the same outputs (values read, flush/commit results; only
+  `len(identity_map)` may differ) and the same database.  Hence every change is flushed
+  no matter which references were dropped and what was collected in between.
+* `gc_unobservable_counterexample` — with a rollback the full statement is false: the
+  transaction remembers the instances it inserted only weakly (finding).
 * `collect_keeps_strong` — collection never removes an object with pending work;
   `collect_flush_db` — flushing after a collection writes the same database;
   `collect_releases` — an unmodified, undeleted object without application reference
@@ -158,16 +160,6 @@ theorem invSlot_flush (nw : Option (Int × Bool)) (o : Option Obj) (row : Option
           | some r => simp only []; slot_done
         · simp only [hm, Bool.false_eq_true, if_false]; slot_done
 
-theorem inv_rolledBack (s : St) : Inv (rolledBack s) := by
-  intro k
-  simp only [rolledBack]
-  cases ho : s.objs k with
-  | none => exact invSlot_none _
-  | some o =>
-    cases hr : (s.saved.getD s.db) k with
-    | none => exact invSlot_none _
-    | some r => simp only [expiredObj]; slot_done
-
 theorem doFlush_cases (c : Cfg) (s s1 : St) (h : doFlush c s = some s1) :
     s1 = s ∨
     (s1.db = (fun k => if k < c.n then flushRow (s.new k) (s.objs k) (s.db k) else s.db k) ∧
@@ -197,7 +189,7 @@ theorem inv_doFlush (c : Cfg) (s s1 : St) (hi : Inv s) (h : doFlush c s = some s
     · simp only [hk, if_false]; exact hi k
 
 theorem inv_expireMap (s : St) (hi : Inv s) :
-    Inv { s with saved := none,
+    Inv { s with saved := none, fresh := fun _ => false,
                  objs := fun k => (s.objs k).map (fun o => { o with val := none, mod := false }) } := by
   intro k
   simp only
@@ -210,8 +202,14 @@ theorem inv_expireMap (s : St) (hi : Inv s) :
 
 theorem inv_init : Inv St.init := fun _ => invSlot_none _
 
-/-- the invariant holds along every history of the reference semantics -/
-theorem inv_step (c : Cfg) (s : St) (op : Op) (hi : Inv s) : Inv (step c s op).1 := by
+/-- the operation neither is nor triggers a rollback (explicit `rollback()`, or a flush that
+    fails) in the reference semantics -/
+def Calm (c : Cfg) (s : St) (op : Op) : Prop :=
+  op ≠ .rollback ∧ (step c s op).2 ≠ .integrity
+
+/-- the invariant holds along every rollback-free history of the reference semantics -/
+theorem inv_step (c : Cfg) (s : St) (op : Op) (hi : Inv s) (hq : Calm c s op) : Inv (step c s op).1 := by
+  obtain ⟨hnr, hni⟩ := hq
   cases op with
   | get k => exact inv_putSlot s k _ hi (invSlot_get _ _ _ (hi k))
   | set k v => exact inv_putSlot s k _ hi (invSlot_set v _ _ _ (hi k))
@@ -220,20 +218,20 @@ theorem inv_step (c : Cfg) (s : St) (op : Op) (hi : Inv s) : Inv (step c s op).1
   | drop k => exact inv_putSlot s k _ hi (invSlot_drop _ _ _ (hi k))
   | expire k => exact inv_putSlot s k _ hi (invSlot_exp _ _ _ (hi k))
   | flush =>
-    simp only [step]
+    simp only [step] at hni ⊢
     cases h : doFlush c s with
-    | none => exact inv_rolledBack s
+    | none => simp [h] at hni
     | some s1 => exact inv_doFlush c s s1 hi h
   | commit =>
-    simp only [step]
+    simp only [step] at hni ⊢
     cases h : doFlush c s with
-    | none => exact inv_rolledBack s
+    | none => simp [h] at hni
     | some s1 =>
       have h1 := inv_doFlush c s s1 hi h
       by_cases he : c.eoc = true
       · simp only [he, if_true]; exact inv_expireMap s1 h1
       · simp only [he, Bool.false_eq_true, if_false]; exact h1
-  | rollback => exact inv_rolledBack s
+  | rollback => exact absurd rfl hnr
   | len => exact hi
 
 /-! ## the simulation -/
@@ -422,10 +420,14 @@ theorem sim_doFlush (c : Cfg) {g s : St} (hs : Sim g s) :
   rw [sim_hasWork c hs]
   by_cases hw : hasWork c s = true
   · simp only [hw, Bool.not_true, Bool.false_eq_true, if_false]
-    have hdup : anyBelow c.n (dupAt g) = anyBelow c.n (dupAt s) := by
-      unfold dupAt; rw [hs.new, hs.db]
+    have hdup : (anyBelow c.n (dupAt g) || anyBelow c.n (goneAt g)) =
+        (anyBelow c.n (dupAt s) || anyBelow c.n (goneAt s)) := by
+      have e1 : dupAt g = dupAt s := by funext k; unfold dupAt; rw [hs.new, hs.db]
+      have e2 : goneAt g = goneAt s := by
+        funext k; unfold goneAt; rw [hs.new, hs.db, rel_strong (hs.objs k)]
+      rw [e1, e2]
     rw [hdup]
-    by_cases hd : anyBelow c.n (dupAt s) = true
+    by_cases hd : (anyBelow c.n (dupAt s) || anyBelow c.n (goneAt s)) = true
     · left; simp [hd]
     · right
       simp only [hd, Bool.false_eq_true, if_false]
@@ -446,19 +448,6 @@ theorem sim_doFlush (c : Cfg) {g s : St} (hs : Sim g s) :
     simp only [hw, Bool.not_false, if_true]
     exact ⟨g, s, rfl, rfl, hs⟩
 
-theorem sim_rolledBack {g s : St} (hs : Sim g s) : Sim (rolledBack g) (rolledBack s) := by
-  refine ⟨?_, rfl, rfl, ?_⟩
-  · simp only [rolledBack]; rw [hs.saved, hs.db]
-  · intro k
-    simp only [rolledBack]
-    rw [hs.saved, hs.db]
-    rcases hs.objs k with h | ⟨h, o, ho, ha, hst⟩
-    · rw [h]; exact rel_refl _
-    · rw [h, ho]
-      cases (s.saved.getD s.db) k with
-      | none => exact rel_refl _
-      | some r => exact Or.inr ⟨rfl, _, rfl, ha, by simp [expiredObj, strong]⟩
-
 theorem rel_map_expire {og os : Option Obj} (h : Rel og os) :
     Rel (og.map (fun o => { o with val := none, mod := false })) (os.map (fun o => { o with val := none, mod := false })) := by
   rcases h with rfl | ⟨rfl, o, rfl, ha, hs⟩
@@ -468,8 +457,9 @@ theorem rel_map_expire {og os : Option Obj} (h : Rel og os) :
 
 /-- one step of the reference semantics simulates one step of the other, without the
     final collection -/
-theorem sim_step_raw (c : Cfg) {g s : St} (op : Op) (hs : Sim g s) (hi : Inv s) :
+theorem sim_step_raw (c : Cfg) {g s : St} (op : Op) (hs : Sim g s) (hi : Inv s) (hq : Calm c s op) :
     Sim (step c g op).1 (step c s op).1 ∧ ObsEq (step c g op).2 (step c s op).2 := by
+  obtain ⟨hnr, hni⟩ := hq
   cases op with
   | get k =>
     simp only [step]
@@ -502,26 +492,26 @@ theorem sim_step_raw (c : Cfg) {g s : St} (op : Op) (hs : Sim g s) (hi : Inv s) 
     obtain ⟨h1, h2⟩ := sim_putSlot hs k _ _ (sim_exp (s.new k) _ _ (hs.objs k))
     exact ⟨h1, Or.inl h2⟩
   | flush =>
-    simp only [step]
+    simp only [step] at hni ⊢
     rcases sim_doFlush c hs with ⟨hg, hs'⟩ | ⟨g1, s1, hg, hs', h1⟩
-    · rw [hg, hs']; exact ⟨sim_rolledBack hs, Or.inl rfl⟩
+    · simp [hs'] at hni
     · rw [hg, hs']; exact ⟨h1, Or.inl rfl⟩
   | commit =>
-    simp only [step]
+    simp only [step] at hni ⊢
     rcases sim_doFlush c hs with ⟨hg, hs'⟩ | ⟨g1, s1, hg, hs', h1⟩
-    · rw [hg, hs']; exact ⟨sim_rolledBack hs, Or.inl rfl⟩
+    · simp [hs'] at hni
     · rw [hg, hs']
       refine ⟨⟨h1.db, rfl, h1.new, ?_⟩, Or.inl rfl⟩
       intro k
       by_cases he : c.eoc = true
       · simp only [he, if_true]; exact rel_map_expire (h1.objs k)
       · simp only [he, Bool.false_eq_true, if_false]; exact h1.objs k
-  | rollback => exact ⟨sim_rolledBack hs, Or.inl rfl⟩
+  | rollback => exact absurd rfl hnr
   | len => exact ⟨hs, Or.inr ⟨_, _, rfl, rfl⟩⟩
 
-theorem sim_step (c : Cfg) {g s : St} (op : Op) (hs : Sim g s) (hi : Inv s) :
+theorem sim_step (c : Cfg) {g s : St} (op : Op) (hs : Sim g s) (hi : Inv s) (hq : Calm c s op) :
     Sim (stepGc c g op).1 (step c s op).1 ∧ ObsEq (stepGc c g op).2 (step c s op).2 := by
-  obtain ⟨h1, h2⟩ := sim_step_raw c op hs hi
+  obtain ⟨h1, h2⟩ := sim_step_raw c op hs hi hq
   exact ⟨sim_collect h1, h2⟩
 
 theorem sim_init : Sim St.init St.init := ⟨rfl, rfl, rfl, fun _ => rel_refl _⟩
@@ -531,31 +521,58 @@ inductive ObsEqL : List Out → List Out → Prop
   | nil : ObsEqL [] []
   | cons {a b : Out} {as bs : List Out} : ObsEq a b → ObsEqL as bs → ObsEqL (a :: as) (b :: bs)
 
-theorem sim_run (c : Cfg) (ops : List Op) : ∀ (g s : St), Sim g s → Inv s →
+/-- a history in which the reference semantics never rolls back: no `rollback()` and no
+    failing flush -/
+def CalmRun (c : Cfg) : St → List Op → Prop
+  | _, [] => True
+  | s, op :: rest => Calm c s op ∧ CalmRun c (step c s op).1 rest
+
+theorem sim_run (c : Cfg) (ops : List Op) : ∀ (g s : St), Sim g s → Inv s → CalmRun c s ops →
     Sim (runGc c g ops) (run c s ops) ∧ ObsEqL (outsGc c g ops) (outs c s ops) := by
   induction ops with
-  | nil => intro g s hs _; exact ⟨hs, .nil⟩
+  | nil => intro g s hs _ _; exact ⟨hs, .nil⟩
   | cons op rest ih =>
-    intro g s hs hi
-    obtain ⟨h1, h2⟩ := sim_step c op hs hi
-    obtain ⟨h3, h4⟩ := ih _ _ h1 (inv_step c s op hi)
+    intro g s hs hi hc
+    obtain ⟨hq, hrest⟩ := hc
+    obtain ⟨h1, h2⟩ := sim_step c op hs hi hq
+    obtain ⟨h3, h4⟩ := ih _ _ h1 (inv_step c s op hi hq) hrest
     exact ⟨h3, .cons h2 h4⟩
 
-/-- **gc_unobservable**: for every history, the Session under garbage collection
-    (after every operation) returns what the Session in which nothing is ever collected
-    returns — values read, results of flush / commit / rollback — except for the size
-    of the identity map. -/
-theorem gc_unobservable (c : Cfg) (ops : List Op) :
-    ObsEqL (outsGc c St.init ops) (outs c St.init ops) :=
-  (sim_run c ops _ _ sim_init inv_init).2
+/-
+Full statement (FALSE of the model and of the code, see `gc_unobservable_counterexample`):
+  theorem gc_unobservable (c : Cfg) (ops : List Op) :
+      ObsEqL (outsGc c St.init ops) (outs c St.init ops)
+-/
 
-/-- **gc_same_db**: and it leaves the same database (and the same pending objects):
+/-- **gc_unobservable_partial**: for every history without a rollback (no `rollback()`, no
+    failing flush), the Session under garbage collection (after every operation) returns
+    what the Session in which nothing is ever collected returns — values read, results of
+    flush / commit — except for the size of the identity map. -/
+theorem gc_unobservable_partial (c : Cfg) (ops : List Op) (hc : CalmRun c St.init ops) :
+    ObsEqL (outsGc c St.init ops) (outs c St.init ops) :=
+  (sim_run c ops _ _ sim_init inv_init hc).2
+
+/-- **gc_same_db_partial**: and it leaves the same database and the same pending objects:
     no change is lost to a dropped reference. -/
-theorem gc_same_db (c : Cfg) (ops : List Op) :
+theorem gc_same_db_partial (c : Cfg) (ops : List Op) (hc : CalmRun c St.init ops) :
     (runGc c St.init ops).db = (run c St.init ops).db ∧
     (runGc c St.init ops).new = (run c St.init ops).new :=
-  let h := (sim_run c ops _ _ sim_init inv_init).1
+  let h := (sim_run c ops _ _ sim_init inv_init hc).1
   ⟨h.db, h.new⟩
+
+/-- the phantom: insert and flush an object, drop it (collected), load the row again,
+    roll back.  The transaction only knows the collected instance (`_new` is weak), so the
+    re-loaded one survives the rollback; modifying it makes the next flush fail, while the
+    Session that kept the first instance alive expunged it and flushes nothing. -/
+def phantomOps : List Op :=
+  [.add 0 1, .flush, .drop 0, .get 0, .rollback, .len, .set 0 5, .flush]
+
+theorem gc_unobservable_counterexample :
+    outsGc ⟨1, false⟩ St.init phantomOps =
+      [.done, .done, .done, .val (some 1), .done, .num 1, .done, .integrity] ∧
+    outs ⟨1, false⟩ St.init phantomOps =
+      [.done, .done, .done, .val (some 1), .done, .num 0, .skip, .done] := by
+  decide
 
 /-! ## what collection does to one state -/
 
@@ -582,6 +599,31 @@ theorem collect_releases (st : St) (k : Nat) (o : Obj) (ho : st.objs k = some o)
   simp [collect, ho, ha, hs]
 
 /-! ## non-vacuity -/
+
+/-- decidable form of `CalmRun` -/
+def calmB (c : Cfg) : St → List Op → Bool
+  | _, [] => true
+  | s, op :: rest =>
+    (match op with
+     | .rollback => false
+     | _ => true) && ((step c s op).2 != .integrity) && calmB c (step c s op).1 rest
+
+theorem calmRun_of_calmB (c : Cfg) : ∀ (ops : List Op) (s : St), calmB c s ops = true → CalmRun c s ops := by
+  intro ops
+  induction ops with
+  | nil => intro _ _; trivial
+  | cons op rest ih =>
+    intro s h
+    simp only [calmB, Bool.and_eq_true, bne_iff_ne, ne_eq] at h
+    refine ⟨⟨?_, h.1.2⟩, ih _ h.2⟩
+    intro he
+    subst he
+    simp at h
+
+/-- the hypothesis of `gc_unobservable_partial` is satisfiable by a history with drops,
+    collections and flushes -/
+example : CalmRun ⟨1, false⟩ St.init [.add 0 1, .commit, .drop 0, .get 0, .set 0 2, .drop 0, .flush, .len] :=
+  calmRun_of_calmB _ _ _ (by decide)
 
 /-- modify, drop the reference, collect, flush: the change is written; the clean object
     is released afterwards -/
